@@ -40,6 +40,11 @@ func fnBitCount(ctx *cmdContext, args map[string]any) (output respValue, err err
 		length *= 8
 	}
 
+	if start < 0 && end < 0 && start > end {
+		output.data = respInt(0)
+		return
+	}
+
 	// right side indexing
 	if start < 0 {
 		start = length + start
@@ -48,20 +53,21 @@ func fnBitCount(ctx *cmdContext, args map[string]any) (output respValue, err err
 		end = length + end
 	}
 
-	// bounds checking
+	// bounds checking (an index that still lies before the string is clamped to its first unit, as Redis does)
 	if start < 0 {
 		start = 0
-	} else if start >= length {
-		// the range starts behind the string (always so for the empty string): nothing to count
-		output.data = respInt(0)
-		return
+	}
+	if end < 0 {
+		end = 0
+	}
+	if end >= length {
+		end = length - 1
 	}
 
-	if end < start {
+	if start > end {
+		// the range starts behind the string or is reversed (always so for the empty string): nothing to count
 		output.data = respInt(0)
 		return
-	} else if end >= length {
-		end = length - 1
 	}
 
 	if bitMode {
